@@ -153,7 +153,10 @@ impl Story {
 
         StoryState::validate_arguments(args)?;
 
-        // Snapshot the output stream
+        // Snapshot the output stream and the thread's previous content pointer
+        // (the latter decides which containers a later divert counts as newly
+        // visited, so it must not be left pointing inside the function)
+        let previous_pointer_before = self.get_state().get_previous_pointer();
         let output_stream_before = self.get_state().get_output_stream().clone();
         self.get_state_mut().reset_output(None);
 
@@ -172,6 +175,7 @@ impl Story {
         // during main story evaluation.
         self.get_state_mut()
             .reset_output(Some(output_stream_before));
+        self.get_state().set_previous_pointer(previous_pointer_before);
 
         // Finish evaluation, and see whether anything was produced
         self.get_state_mut()
